@@ -83,14 +83,15 @@ def rs_norm(s):
     return s[:160]
 
 
-def run_unit(unit_tpl, mode, workdir, modules=None, rlimit=None, seed=None, tag=''):
+def run_unit(unit_tpl, mode, workdir, modules=None, rlimit=None, seed=None, tag='', only=None):
+    """only = (module, [functions]) restricts verification to some functions of one module (Verus --verify-only-module / --verify-function)."""
     res = UnitResult()
     res.unit, res.mode = unit_tpl, mode
     os.makedirs(workdir, exist_ok=True)
     g = gen.process(unit_tpl, {mode})
     res.g = g
     base = os.path.splitext(os.path.basename(unit_tpl))[0]
-    path = os.path.join(workdir, '%s_%s%s.rs' % (base, mode, tag))
+    path = os.path.join(workdir, '%s_%s%s%s.rs' % (base, mode, tag, ('_' + only[0] + '_' + '_'.join(only[1])) if only else ''))
     with open(path, 'w') as f:
         f.write(g.text())
     res.gen_path = path
@@ -98,6 +99,10 @@ def run_unit(unit_tpl, mode, workdir, modules=None, rlimit=None, seed=None, tag=
     cmd = [VERUS, path, '--output-json', '--error-format=json', '--multiple-errors', '50', '--time']
     for m in modules or []:
         cmd += ['--verify-module', m]
+    if only:
+        cmd += ['--verify-only-module', only[0]]
+        for fnn in only[1]:
+            cmd += ['--verify-function', fnn]
     if rlimit:
         cmd += ['--rlimit', str(rlimit)]
     if seed is not None:
